@@ -66,7 +66,7 @@ def stepLine (st : St) (line : String) : St × String :=
   | "index" :: d :: thr :: brs :: rest =>
     match bool? d, thr.toNat?, natList? brs with
     | some d, some thr, some brs =>
-      let isDelta := d && deltaOk st.idx thr brs
+      let isDelta := d && deltaOk st.idx thr brs && !mixedChange diffTrees st.idx.snap st.repo st.idx.brs
       let idx' := indexRun diffTrees st.idx st.repo d thr brs
       -- `ns`: the run used a small ShardMax, so the number of shards is not the model's
       let nsh := if rest == ["ns"] then "*" else toString idx'.shards.length
